@@ -37,6 +37,7 @@ harness error (only `KeyboardInterrupt` passes through).
 import datetime
 import json
 import os
+import re
 import struct
 import subprocess
 import sys
@@ -2675,6 +2676,84 @@ def marker_containers():
     return out
 
 
+LOOKALIKE_WORDS = ("decimal", "date", "time", "timedelta", "timestamp", "bytes", "set", "tuple", "ndarray", "numpy", "uuid", "ext", "type",
+                   "class", "row", "complex", "nan", "null", "none", "object", "json", "struct", "interval", "datetime64")
+
+
+def harvested_markers():
+    """Every text literal of the form `__word__` in the CURRENT source text of orso/row.py and compiled.pyx
+    (quoted, either kind of quote): the candidates for a second encoder tag.  -> (sorted list, note)"""
+    found, notes = set(), []
+    for rel in ("orso/row.py", "orso/compute/compiled.pyx"):
+        try:
+            with open(os.path.join(core.REPO, rel), encoding="utf-8", errors="replace") as f:
+                text = f.read()
+        except OSError as e:
+            notes.append("%s unreadable (%s)" % (rel, type(e).__name__))
+            continue
+        for m in re.finditer(r"""(?:b|rb|br|r|u)?(["'])(__\w+?__\w*)\1""", text):
+            found.add(m.group(2))
+    return sorted(found), "; ".join(notes)
+
+
+def lookalike_markers():
+    marks = set(harvested_markers()[0]) | {"__%s__" % w for w in LOOKALIKE_WORDS}
+    marks |= {"__datetime__x", "x__datetime__", "__datetime___", "_datetime_", "__datetime__\x00", "__Datetime__", "__datetime__ ", "$date", "$type",
+              "__type__", "~#date", "!decimal"}
+    return sorted(marks)
+
+
+def lookalike_values():
+    """In-domain values that LOOK like an encoder tag: the property reserves ONLY the two-element list
+    `['__datetime__', x]`; every one of these is an ordinary value of the domain and comes back as itself.
+    Two-element lists headed by a marker text (and the marker in second place, three-element, one-element forms),
+    maps with a tag key, binary with a magic prefix, shapes an extension type would unpack to."""
+    out = []
+    payloads = ["1.50", "a", "", 7, 0, -1, None, 1.5, True, "2024-01-02", "NaN", b"\x00\x01", [1], {}, "2024-01-02T03:04:05"]
+    light = ["1.50", 7, None]
+    fixed = {"__decimal__", "__date__", "__datetime__x", "__bytes__", "__set__", "__time__", "__timedelta__"}
+    for m in lookalike_markers():
+        for p in (payloads if m in fixed or m in harvested_markers()[0] else light):
+            if m == "__datetime__":
+                continue  # the reserved pair itself: kind "reserved"
+            out.append([m, p])
+        out += [{m: p} for p in (payloads if m in fixed else light + [[1], [1, 2], [], {}])]
+        out += [[m], [m, "1.50", 2], [1, m], {m: "1.50"}, {m: True, "value": "1.50"}, {"type": m, "value": 7}, {"__type__": m.strip("_"), "v": "1.50"}]
+        b = m.encode("utf-8")
+        out += [b, b + b"1.50", [b, "1.50"], b"\x00" + b]
+    out = [v for v in out if not is_reserved(v)]
+    # ext-type-like shapes: (code, data) pairs, the timestamp extension's unpacked forms, a msgpack ExtType rendered as a value
+    out += [[-1, b"\x00\x00\x00\x00"], [1, b"\x00"], [5, b"1.50"], {"code": 1, "data": b"\x00"}, [0, 0], [1700000000, 0], {"seconds": 1, "nanoseconds": 0},
+            ["ExtType", 1, b"\x00"], b"\xd6\xff\x00\x00\x00\x00", b"\xc7\x0c\xff" + b"\0" * 12, b"\x10\x00\x00\x00\x00\x01" + b"\0" * 8 + b"\x90"]
+    seen, uniq = set(), []
+    for v in out:
+        k = repr(v)
+        if k not in seen:
+            seen.add(k)
+            uniq.append(v)
+    return uniq
+
+
+def lookalike_cases():
+    """Each look-alike at top level (alone, between two plain columns, twice), one level down in a list and as a map
+    value, and as an element of a tuple column."""
+    vals = lookalike_values()
+    for v in vals:
+        yield {"kind": "row", "row": [v], "why": "tag-lookalike", "light": True}
+    for i, v in enumerate(vals):
+        if isinstance(v, dict) and len(v) == 1 and i % 2 == 0:
+            yield {"kind": "row", "row": [None, v], "why": "tag-lookalike", "light": True}
+            yield {"kind": "row", "row": [[v], {"k": v}], "why": "tag-lookalike-nested", "light": True}
+        if isinstance(v, list) and len(v) == 2 and isinstance(v[0], str):
+            yield {"kind": "row", "row": [1, v, "a"], "why": "tag-lookalike", "light": True}
+            yield {"kind": "row", "row": [[v]], "why": "tag-lookalike-nested", "light": True}
+            yield {"kind": "row", "row": [{"k": v}], "why": "tag-lookalike-nested", "light": True}
+            if i % 3 == 0:
+                yield {"kind": "row", "row": [v, v], "why": "tag-lookalike", "light": True}
+                yield {"kind": "row", "row": [v], "tuples": True, "why": "tag-lookalike", "light": True}
+                yield {"kind": "row", "row": [[1, [v, None]], {"a": {"b": v}}], "why": "tag-lookalike-nested", "light": True}
+
+
 def exhaustive_cases():
     vals = SCALARS + small_containers() + marker_containers()
     yield {"kind": "row", "row": []}
@@ -3035,6 +3114,11 @@ def run(ctx):
     ctx.exhaustive = False
     ctx.note("exhaustive_scope", "all rows of width 0, 1 over %d boundary values and all rows of width 2 over 15 values (%d rows); "
              "for each, every tear point, the 36 guarded bit flips, every other version nibble, 4 extensions" % (len(SCALARS) + len(small_containers()), n_ex))
+    look = list(lookalike_cases())
+    hm, hnote = harvested_markers()
+    ctx.note("tag_lookalikes", "%d rows over %d look-alike values; marker literals `__word__` found in the source text of orso/row.py and "
+             "compiled.pyx on this run: %s%s; only ['__datetime__', x] is excluded" % (len(look), len(lookalike_values()), json.dumps(hm), " (%s)" % hnote if hnote else ""))
+    evaluate(ctx, look)
     evaluate(ctx, list(unguarded_cases()) + list(float32_cases()) + list(family_cases()) + reserved_cases(rng) + refuse_cases() + glue_cases())
     evaluate(ctx, seq_cases(rng, ctx.scale(60, 1500)))
     evaluate(ctx, obj_cases(ctx, rng))
